@@ -1,13 +1,13 @@
 /* C11 - the set/get/list API behaves as an ordered map from (section, key) to text.
- * E2: breadth-first search over all histories of econf_setStringValue(section spelling x key x value) from 8 start
- * states (3 constructors, 3 parsed files, 2 chains that cross the 8 pre-allocated entries), de-duplicated on the
+ * E2: breadth-first search over all histories of econf_setStringValue(section spelling x key x value) from 9 start
+ * states (3 constructors, 4 parsed files - one with keys that have no value -, 2 chains that cross the 8 pre-allocated entries), de-duplicated on the
  * canonical form of the object. --p0 = depth, --p1 = deepest level whose states are checked against the reference
  * (default = depth), --p2 = bitmask of start states (default all).
  * In every state: every get / get-with-default / listing equals the reference ordered map; section aliases; refused
  * calls have no effect; typed setters store their text; the state is reproducible (canon-on-replay). */
 #include "e2common.h"
 
-static int start_mask = 0xff;
+static int start_mask = 0x1ff;
 static int odd_names;   /* --p4 = 1: second alphabet - the bracket pair alone (= group-less), names that are equal under the library's string hash (djb2), an array-style name */
 
 static int bfs_expand(const bfs_hist *h, int op, uint64_t hash[2], uint64_t *refhash)
@@ -99,6 +99,24 @@ static void check_gets(econf_file *kf, e2_model *m, const char *sig, const char 
       if (rc != ECONF_SUCCESS || !streq0(dv, e->has_v ? e->v : NULL)) mc_fail(sig, "%s: getDef(%s,%s) rc=%d value=%s, reference has \"%s\"; %s", when, secs[si] ? secs[si] : "NULL", keys[ki], (int)rc, dv ? dv : "<none>", e->has_v ? e->v : "", sig);
     } else if (rc != ECONF_NOKEY || !dv || strcmp(dv, "DEFAULT")) mc_fail(sig, "%s: getDef(%s,%s) of an absent key: rc=%d value=%s, expected ECONF_NOKEY and the default; %s", when, secs[si] ? secs[si] : "NULL", keys[ki], (int)rc, dv ? dv : "<none>", sig);
     free(dv);
+    /* the typed defaulted getters: the default arrives exactly when the key is absent. For a key that is present the out-value is
+     * the converted value or - when the text does not convert or the key has no value - anything but the default (no value of the
+     * alphabet reads as 55 / true-on-error) */
+    if (!strcmp(when, "state")) {
+      int32_t i32 = 77; uint64_t u64 = 77; double d = 77; bool b = false;
+      econf_err r1 = econf_getIntValueDef(kf, secs[si], keys[ki], &i32, 55);
+      econf_err r2 = econf_getUInt64ValueDef(kf, secs[si], keys[ki], &u64, 55);
+      econf_err r3 = econf_getDoubleValueDef(kf, secs[si], keys[ki], &d, 55);
+      econf_err r4 = econf_getBoolValueDef(kf, secs[si], keys[ki], &b, true);
+      mc_st->libcalls += 4;
+      if (!e) {
+        if (r1 != ECONF_NOKEY || r2 != ECONF_NOKEY || r3 != ECONF_NOKEY || r4 != ECONF_NOKEY || i32 != 55 || u64 != 55 || d != 55 || !b)
+          mc_fail(sig, "%s: typed defaulted getters on the absent key (%s,%s): rcs %d %d %d %d values %d %llu %g %d, expected ECONF_NOKEY and the defaults 55 55 55 true; %s", when,
+                  secs[si] ? secs[si] : "NULL", keys[ki], (int)r1, (int)r2, (int)r3, (int)r4, (int)i32, (unsigned long long)u64, d, (int)b, sig);
+      } else if (i32 == 55 || u64 == 55 || d == 55 || (r4 != ECONF_SUCCESS && b) || r1 == ECONF_NOKEY || r2 == ECONF_NOKEY || r3 == ECONF_NOKEY || r4 == ECONF_NOKEY)
+        mc_fail(sig, "%s: typed defaulted getters on the PRESENT key (%s,%s) (value \"%s\"): rcs %d %d %d %d values %d %llu %g %d - the default (55 / true) was delivered or the key reported absent; %s", when,
+                secs[si] ? secs[si] : "NULL", keys[ki], e->has_v ? e->v : "<none>", (int)r1, (int)r2, (int)r3, (int)r4, (int)i32, (unsigned long long)u64, d, (int)b, sig);
+    }
   }
 }
 
@@ -188,7 +206,7 @@ int main(int argc, char **argv)
     e2_sec[0] = NULL; e2_sec[1] = "[]"; e2_sec[2] = "Az"; e2_sec[3] = "[BY]"; e2_nsec = 4;   /* the plain spelling BY and the array-style s[0] are used by the getters / typed setters */
     e2_key[0] = "xz"; e2_key[1] = "yY"; e2_key[2] = "xz "; e2_nkey = 3;
   }
-  bfs_nstarts = 8; bfs_nops = e2_nsec * e2_nkey * e2_nval;
+  bfs_nstarts = 9; bfs_nops = e2_nsec * e2_nkey * e2_nval;
   if (mc_opt.case_id) {
     bfs_hist h; bfs_parse_id(mc_opt.case_id, &h);
     mc_verbose = 1;
